@@ -15,7 +15,7 @@ import re
 import sys
 import time
 
-from z3 import (And, BitVec, BitVecVal, BoolVal, Concat, Extract, If, LShR, Not, Or, Solver, UGE, UGT, ULE, ULT, ZeroExt,
+from z3 import (And, BitVec, BitVecVal, BoolVal, Concat, Extract, If, LShR, Not, Or, Solver, UGE, UGT, ULE, ULT, ZeroExt, SignExt,
                 is_bv_value, is_false, is_true, sat, simplify, unsat, unknown)
 
 HAY_BASE = 0x100000
@@ -393,9 +393,16 @@ class Exec:
                 self.set32(st, dst, val)
             else:
                 self.dst_set(st, dst, val, w, pcs)
-        elif op in ("MOVBLZX", "MOVBQZX"):
-            val = self.src_val(st, a[0], 8, pcs)
-            st.r[a[1]] = ZeroExt(56, val)
+        elif len(op) == 7 and op.startswith("MOV") and op[3] in "BWL" and op[4] in "WLQ" and op[5:] in ("ZX", "SX"):
+            # MOVBLZX, MOVBQZX, MOVWLZX, MOVWQZX, MOVLQZX, MOVBLSX ...: a load of the SOURCE width (1/2/4 bytes,
+            # each byte an in-bounds obligation), extended to the destination width; 32-bit results clear the upper half
+            sw, dw = W[op[3]], W[op[4]]
+            val = self.src_val(st, a[0], sw, pcs)
+            ext = ZeroExt(dw - sw, val) if op[5:] == "ZX" else SignExt(dw - sw, val)
+            if dw == 16:
+                st.r[a[1]] = Concat(Extract(63, 16, self.reg64(st, a[1])), ext)
+            else:
+                st.r[a[1]] = ZeroExt(64 - dw, ext) if dw < 64 else ext
         elif op == "MOVD":
             src, dst = a
             if self.is_vec(dst):
